@@ -195,6 +195,17 @@ func (e *Eval) builtin(fr *frame, x *ssa.Call, name string, args []AV, st State)
 					n := src
 					n.Obj, n.Param = nil, nil
 					e.setContent(fr, st, d.Obj, BufC{n})
+				} else if cur.LenKnown && src.LenKnown && cur.Len.Const() && src.Len.Const() && src.Len.A <= cur.Len.A && cur.HasVal && src.HasVal && !cur.Min && !src.Min && cur.Pending == nil && src.Pending == nil && fr.loop == nil {
+					// a shorter source: the first len(src) bytes are replaced
+					if l, ok := WriteBytes(cur.Val, cur.Len.A, 0, src.Len.A, src.Val); ok {
+						n := cur
+						n.Obj, n.Param, n.Str = nil, nil, nil
+						n.Val = l
+						n.Src = "copy into the front"
+						e.setContent(fr, st, d.Obj, BufC{n})
+					} else {
+						e.setContent(fr, st, d.Obj, BufC{BytesV{LenKnown: cur.LenKnown, Len: cur.Len, Src: "⊤: partial copy"}})
+					}
 				} else {
 					e.setContent(fr, st, d.Obj, BufC{BytesV{LenKnown: cur.LenKnown, Len: cur.Len, Src: "⊤: partial copy"}})
 				}
@@ -299,6 +310,36 @@ func (e *Eval) builtin(fr *frame, x *ssa.Call, name string, args []AV, st State)
 				return BytesV{LenKnown: true, Len: a0.Len.Add(a1.Len), Src: "⊤: append"}
 			}
 			return BytesV{Src: "⊤: append"}
+		}
+		if sv, ok := args[0].(SliceV); ok && fr.loop == nil && len(args) == 2 {
+			// append to a local []string with known elements: a new slice value, one longer
+			if ac, ok := st[sv.O].(*ArrC); ok && ac.Top == "" && ac.Alias == nil && len(ac.Stores) == 0 {
+				if n, ok := ac.N.Const(); ok && n >= 0 && n < 4096 {
+					var add []AV
+					okAdd := false
+					switch v := args[1].(type) {
+					case SliceV:
+						if vc, ok := st[v.O].(VecC); ok {
+							add, okAdd = vc.Elems, true
+						}
+					case NilV:
+						okAdd = true
+					}
+					if okAdd {
+						elems := make([]AV, n, n+int64(len(add)))
+						copy(elems, ac.Elems)
+						for i := range elems {
+							if elems[i] == nil {
+								elems[i] = CStr("")
+							}
+						}
+						elems = append(elems, add...)
+						o := e.newObj(okArr, x, "append([]string)")
+						e.setContentFresh(st, o, &ArrC{N: CInt(int64(len(elems))), Elems: elems, id: o.ID})
+						return SliceV{O: o}
+					}
+				}
+			}
 		}
 		return e.topOf(x.Type(), "append")
 	case "min", "max":
@@ -1355,7 +1396,7 @@ func (e *Eval) guardedResult(x *ssa.Call, callee *ssa.Function, rets []retRec) (
 				tag := fmt.Sprintf("differs between the success and the failure return of call %p", x)
 				ph := topContent(o, tag)
 				out[o] = ph
-				if _, isVec := ph.(VecC); !isVec {
+				if true {
 					if e.alts == nil {
 						e.alts = map[ssa.Instruction]map[*Obj]altContent{}
 					}
